@@ -277,6 +277,23 @@ Proof.
   cbn [ret]. lia.
 Qed.
 
+Lemma end_agree_pair_tok TK st m :
+  end_agree (rule_code_pair_tok TK st m true) (rule_code_pair_tok TK st m false).
+Proof.
+  intros ss n. unfold rule_code_pair_tok.
+  destruct (irest st) as [|rest]; cbn [bind]; [discriminate|]. destruct rest as [|ch t]; [discriminate|].
+  destruct (negb (ch =? m)) eqn:Em; [discriminate|].
+  destruct (match rev (trailing_text_get st) with x :: _ => x =? m | [] => false end); [discriminate|].
+  destruct (get_bt st m) as [scanned maxv]. destruct (_ && _); [discriminate|].
+  destruct (code_scan _ _ _ _ _ _) as [|[o mv]] eqn:Es; cbn [bind]; [discriminate|]. cbn [fst snd].
+  destruct o as [[ms me]|]; [|discriminate]. apply code_scan_ge in Es.
+  intros H. injection H as <- <-. cbn [i_pos set_bt iset_bt].
+  destruct (isl st _ ms) as [|raw]; cbn [bind]; [exact I|]. cbv zeta.
+  destruct (iget_map st (i_pos st) me) as [|mp]; cbn [bind]; [exact I|].
+  match goal with |- match bind ?a _ with _ => _ end => destruct a as [|inner'] end; cbn [bind]; [exact I|].
+  cbn [i_pos]. destruct (i_pos inner' <=? me) eqn:E; [|exact I]. cbn [ret i_pos]. lia.
+Qed.
+
 Theorem silent_real_same_end cfg TK SK r st :
   end_agree (run_rule cfg TK SK r st true) (run_rule cfg TK SK r st false).
 Proof.
@@ -286,7 +303,7 @@ Proof.
                  rule_emph_spec, rule_autolink_spec, rule_entity_spec, rule_html_inline_spec, rule_custom_inline_spec,
                  agree_text, agree_newline, agree_escape, agree_code_pair, agree_emph, agree_autolink, agree_entity,
                  agree_html_inline, agree_custom];
-    try (intros ss n H; discriminate H).
+    try (intros ss n H; discriminate H); try solve [apply end_agree_pair_tok].
   - destruct (irest st) as [|rest]; cbn [bind]; [intros ss n H; discriminate|]. destruct rest as [|ch t]; [intros ss n H; discriminate|].
     destruct (ch =? 91); [apply end_agree_link|intros ss n H; discriminate].
   - destruct (irest st) as [|rest]; cbn [bind]; [intros ss n H; discriminate|].
